@@ -1,5 +1,4 @@
 import UgoVerif.Go.Basic
-import UgoVerif.Go.Attr
 /-
   Pure (structural) uGO values, used by the value-level properties (C15, C20,
   C04, C17, C19).  Aliasing is not observable in those properties, so containers
